@@ -36,7 +36,7 @@ func registerProps() {
 		{ID: "C17", Title: "Source loading maps every file to its package and a real common root", DesignRef: "§4 C17"},
 		{ID: "C19", Title: "Declaration assembly is a set-like, order-independent merge", DesignRef: "§4 C19", Lemmas: []string{"sorted_perm_unique.lean"}, Trusted: []string{"lemma sorted_perm_unique (Lean 4 core, /verif/lemmas/sorted_perm_unique.lean, re-checked in the thorough tier): a key-sorted permutation whose equal-key elements are equal is unique; its hand correspondence with the SMT-level postconditions (sorted by (priority, ID); same elements)"}},
 		{ID: "C10", Title: "Enum detection is exact", DesignRef: "§4 C10"},
-		{ID: "C11", Title: "Union detection and membership are exact", DesignRef: "§4 C11"},
+		{ID: "C11", Title: "Union detection and membership are exact", DesignRef: "§4 C11", Trusted: []string{"completeness of (*Struct).setImplements (every analysed union listing the struct IS reported) is not proved: existential goal out of the solvers reach; exercised by the always-run bounded harness only"}},
 		{ID: "C07", Title: "Generation is deterministic", DesignRef: "§4 C07", Ordind: true},
 		{ID: "C18", Title: "Unsupported input is refused with a diagnostic, never a crash", DesignRef: "§4 C18"},
 		{ID: "C20", Title: "Formatter probing is race-free, cached and optional", DesignRef: "§4 C20", Locks: true},
